@@ -642,6 +642,12 @@ func (vc *VC) unrollLoop(st *State, label string, cond func(s *State) string, it
 			next = append(next, iter(b)...)
 		}
 		sts = next
+		// the unrolled execution is only used to look for counterexamples: it must stay small (nested loops over
+		// selects multiply paths; an earlier run grew to tens of gigabytes here)
+		vc.unrollStates += len(next)
+		if vc.unrollStates > 1500 {
+			panic(unsupported("unrolled search abandoned: too many paths"))
+		}
 		if len(sts)+len(exits) > maxPaths {
 			break
 		}
